@@ -81,7 +81,7 @@ def gen_value(T, name, rng, depth, McpBase, variant=0):
     if origin in (dict, typing.Dict):
         vt = args[1] if len(args) > 1 else typing.Any
         if vt is typing.Any:
-            return {"a": 1, "nil": None, "nested": {"x": None, "y": [None]}, "ünï": "é"}
+            return {"a": 1, "nil": None, "nested": {"x": None, "y": [None]}, "ünï": "é", " padded key ": " padded value\n"}
         return {"k1": gen_value(vt, "k1", rng, depth + 1, McpBase, variant), "k2": gen_value(vt, "k2", rng, depth + 1, McpBase, variant + 1)}
     if origin is tuple:
         return [gen_value(a, name, rng, depth + 1, McpBase, variant) for a in args if a is not Ellipsis]
@@ -89,7 +89,11 @@ def gen_value(T, name, rng, depth, McpBase, variant=0):
         if issubclass(T, McpBase):
             return gen_model(T, rng, depth + 1, McpBase, variant)
         if T is str:
-            return NAME_VALUES.get(name, "s-" + name)
+            base = NAME_VALUES.get(name, "s-" + name)
+            if name in ("uri", "url", "command", "jsonrpc", "method", "protocolVersion", "uriTemplate", "mimeType", "data", "blob"):
+                return base
+            # surrounding whitespace and line ends are content, not noise
+            return [base, "  " + base + " ", base + "\n", "\t" + base][variant % 4]
         if T is bool:
             return bool(variant % 2)
         if T is int:
